@@ -9,6 +9,7 @@ import NutsModel.C02.History
 import NutsModel.C02.Jar
 import NutsModel.C02.Policy
 import NutsModel.C02.Front
+import NutsModel.C02.ReqObj
 import NutsModel.Facts.C02
 import NutsProofs.Lemmas.C02
 import NutsProofs.Lemmas.C02b
@@ -16,6 +17,7 @@ import NutsProofs.Lemmas.C02c
 import NutsProofs.Lemmas.C02d
 import NutsProofs.Lemmas.C02e
 import NutsProofs.Lemmas.C02f
+import NutsProofs.Lemmas.C02g
 
 namespace Nuts.C02.Props
 open Nuts.C02
@@ -1162,5 +1164,107 @@ example : (tokenEndpoint frontCfg grantNamesToday demoSha (serveAll frontCfg gra
 example : (tokenEndpoint frontCfg grantNamesToday demoSha (serveAll frontCfg grantNamesToday demoSha frontHistory {}) 102
       "alpha" "authorization_code" witnessReq (frontCode "https://c/oauth2/C1")).2 =
     .err "invalid_request/client_id-mismatch" := by decide
+
+/-! ### Deepening round: the server's own request objects (api.go RequestJWTByGet / RequestJWTByPost, jar.go createJarRequest) -/
+
+/-- `RequestJWTByGet` / `RequestJWTByPost` / `createAuthorizationRequest` / `createJarRequest` as `requestJWT` / `nextFlowRO` /
+    `createJarRequest` mirror them: the entry is taken out of the store FIRST (`GetAndDelete`), then tenant (exact `!=`) and
+    method (case sensitive) are checked; `aud` / method `get` only with an audience; the self-issued issuer means no audience -/
+theorem fact_request_object_endpoints :
+    Facts.C02.condsRequestJWTByGet =
+      ["err != nil", "ro.Client != expected.String()", "ro.RequestURIMethod != \"get\"", "err != nil"] ∧
+    Facts.C02.condsRequestJWTByPost =
+      ["err != nil", "ro.Client != expected.String()", "ro.RequestURIMethod != \"post\"", "request.Body != nil",
+       "request.Body.WalletMetadata != nil", "request.Body.WalletNonce != nil",
+       "walletMetadata.Issuer != \"https://self-issued.me/v2\"", "err != nil"] ∧
+    Facts.C02.chainRequestJWTByGet = ["authzRequestObjectStore.GetAndDelete", "subjectToBaseURL", "Sign", "NewReader", "int64"] ∧
+    Facts.C02.chainRequestJWTByPost =
+      ["authzRequestObjectStore.GetAndDelete", "subjectToBaseURL", "staticAuthorizationServerMetadata", "Sign", "NewReader", "int64"] ∧
+    Facts.C02.condsCreateAuthorizationRequest =
+      ["len(metadata.AuthorizationEndpoint) == 0", "err != nil", "err != nil",
+       "metadata.Issuer == \"https://self-issued.me/v2\"",
+       "r.authzRequestObjectStore().Put(requestURIID, requestObj); err != nil", "metadata.RequireSignedRequestObject"] ∧
+    Facts.C02.chainCreateAuthorizationRequest =
+      ["Parse", "subjectToBaseURL", "determineClientDID", "GenerateNonce", "Create", "authzRequestObjectStore.Put", "JoinPath",
+       "AddQueryParams", "modifier", "AddQueryParams"] ∧
+    Facts.C02.condsCreateJarRequest = ["audience != \"\""] ∧
+    Facts.C02.chainJarSign = ["get", "ParseDID", "ResolveKey", "SignJWT"] := by decide
+
+/-- **a request object is handed to the signer only if** it is in the store and unexpired under that id, belongs to the
+    tenant of the request path, and was announced for the method used; by GET the signed claims are the stored ones, by
+    POST they differ at most in `wallet_nonce` and `aud` (in particular: nonce and state are the stored ones). -/
+theorem request_object_served_only_if (cfg : Cfg) (ro s' : Store JarReq) (now : Nat) (post : Bool) (id subject : String)
+    (wi wn : Option String) (claims : Obj) (h : requestJWT cfg ro now post id subject wi wn = (s', .ok claims)) :
+    ∃ r, ro.get now id = some r ∧ s' = ro.del id ∧ r.client = cfg.issuerURL subject ∧
+      r.method = (if post then "post" else "get") ∧ (post = false → claims = r.claims) ∧
+      ∀ k, k ≠ "wallet_nonce" → k ≠ "aud" → objGet claims k = objGet r.claims k :=
+  requestJWT_ok cfg ro s' now post id subject wi wn claims h
+
+/-- **one fetch, whatever its outcome, burns the request object**: right or wrong tenant, right or wrong method, signed or
+    not - afterwards the id is unknown at every later time -/
+theorem request_object_burned_by_any_fetch (cfg : Cfg) (ro : Store JarReq) (now later : Nat) (post : Bool)
+    (id subject : String) (wi wn : Option String) (hle : now ≤ later) :
+    (requestJWT cfg ro now post id subject wi wn).1.get later id = none :=
+  requestJWT_burns cfg ro now later post id subject wi wn hle
+
+/-- **the fetched request object carries the leg's own nonce and state (leg → wire, end to end).** The object a leg stores
+    (`nextOpenID4VPFlow`), fetched in time by the leg's tenant with the announced method, is signed with exactly the
+    nonce and state of that leg, `response_type` vp_token and `response_mode` direct_post - the values
+    `authorizeResponse` later checks a presentation against. -/
+theorem leg_request_object_carries_its_nonce (cfg : Cfg) (signerOf : String → String) (ro : Store JarReq) (now later : Nat)
+    (subject clientIssuer owner nonce state : String) (wi wn : Option String) (httl : cfg.tokenValidity ≠ 0)
+    (hin : later ≤ now + cfg.tokenValidity) (hci : clientIssuer ≠ selfIssued) (hnonempty : clientIssuer ≠ "") :
+    ∃ claims, (requestJWT cfg (nextFlowRO cfg signerOf ro now subject clientIssuer owner nonce state) later
+        (decide (owner = "user")) (roName nonce) subject wi wn).2 = .ok claims ∧
+      objGet claims "nonce" = some nonce ∧ objGet claims "state" = some state ∧
+      objGet claims "response_type" = some "vp_token" ∧ objGet claims "response_mode" = some "direct_post" := by
+  by_cases ho : owner = "user"
+  · -- user wallet: static metadata, no audience, method post
+    have hfacts := createJarRequest_vpflow cfg (signerOf subject) (cfg.issuerURL subject) "" subject nonce state
+    simp only at hfacts
+    obtain ⟨hn, hs, hrt, hrm, _, hcl⟩ := hfacts
+    have hro : nextFlowRO cfg signerOf ro now subject clientIssuer owner nonce state =
+        ro.put now cfg.tokenValidity (roName nonce)
+          (createJarRequest (signerOf subject) (cfg.issuerURL subject) "" (vpFlowModifier cfg subject nonce state)) := by
+      simp [nextFlowRO, ho]
+    have hd : decide (owner = "user") = true := by simp [ho]
+    rw [hro, hd, requestJWT_after_put cfg ro now later (roName nonce) subject _ true wi wn httl hin hcl
+      (by simp [createJarRequest])]
+    refine ⟨_, rfl, ?_, ?_, ?_, ?_⟩
+    · rw [if_pos rfl, withWallet_get _ wi wn "nonce" (by decide) (by decide)]; exact hn
+    · rw [if_pos rfl, withWallet_get _ wi wn "state" (by decide) (by decide)]; exact hs
+    · rw [if_pos rfl, withWallet_get _ wi wn "response_type" (by decide) (by decide)]; exact hrt
+    · rw [if_pos rfl, withWallet_get _ wi wn "response_mode" (by decide) (by decide)]; exact hrm
+  · -- organization wallet: the client's metadata, audience = its issuer, method get
+    have hfacts := createJarRequest_vpflow cfg (signerOf subject) (cfg.issuerURL subject) clientIssuer subject nonce state
+    simp only at hfacts
+    obtain ⟨hn, hs, hrt, hrm, _, hcl⟩ := hfacts
+    have hne : clientIssuer ≠ "" ∨ clientIssuer = "" := by
+      by_cases h : clientIssuer = ""
+      · exact .inr h
+      · exact .inl h
+    have hro : nextFlowRO cfg signerOf ro now subject clientIssuer owner nonce state =
+        ro.put now cfg.tokenValidity (roName nonce)
+          (createJarRequest (signerOf subject) (cfg.issuerURL subject) clientIssuer (vpFlowModifier cfg subject nonce state)) := by
+      simp [nextFlowRO, ho, hci]
+    have hd : decide (owner = "user") = false := by simp [ho]
+    rw [hro, hd, requestJWT_after_put cfg ro now later (roName nonce) subject _ false wi wn httl hin hcl
+      (by simp [createJarRequest, hnonempty])]
+    exact ⟨_, rfl, hn, hs, hrt, hrm⟩
+
+/-! non-vacuity: the leg's object is served once (with its nonce), the second fetch and a fetch under another tenant fail -/
+private def roStore : Store JarReq :=
+  nextFlowRO frontCfg (fun s => "did:web:as:" ++ s) [] 100 "alpha" "https://c/oauth2/c1" "organization" "on#0" "st#0"
+
+example : (match (requestJWT frontCfg roStore 101 false (roName "on#0") "alpha" none none).2 with
+    | .ok c => (objGet c "nonce", objGet c "state", objGet c "aud")
+    | _ => (none, none, none)) = (some "on#0", some "st#0", some "https://c/oauth2/c1") := by decide
+
+example : (requestJWT frontCfg (requestJWT frontCfg roStore 101 false (roName "on#0") "alpha" none none).1 102 false
+    (roName "on#0") "alpha" none none).2 = .err "invalid_request/request-object-not-found" := by decide
+
+example : (requestJWT frontCfg roStore 101 false (roName "on#0") "beta" none none).2 = .err "invalid_request/client_id-mismatch" ∧
+    (requestJWT frontCfg roStore 101 true (roName "on#0") "alpha" none none).2 = .err "invalid_request/post-on-get-request_uri" := by
+  decide
 
 end Nuts.C02.Props
